@@ -11,6 +11,9 @@
 #endif
 #include "contracts/fast_tlv_hdr.h"        /* KSI_FTLV_memRead replaced by its contract (C09.memRead / C09.memRead_arith) */
 #endif
+#ifdef EL_MEM_WITNESS
+#include "env/memops_witness.h"           /* memcpy/memmove of symbolic length -> witness abstraction (assumed libc) */
+#endif
 #include "env/ghost_tlvelem.h"
 #if defined(H_elserialize)
 #include "contracts/tlv_element_serialize.h"
